@@ -427,6 +427,14 @@ def dump(build_dir, repo=REPO, log=print):
                '-C', 'debug-assertions=off', '-C', 'overflow-checks=on', '--cfg', f'verif_mir_{sh[:12]}']
         p = subprocess.run(cmd, cwd=repo, env=env, stdout=subprocess.PIPE, stderr=subprocess.PIPE, text=True)
         if p.returncode != 0 or len(p.stdout) < 1000:
+            # engine M reads private functions straight from the dump and needs none of the `verif` re-exports: if a source change
+            # breaks only the guarded hook code, dump without the feature rather than losing every unit
+            cmd2 = [c for c in cmd if c not in ('--features', 'verif')]
+            p2 = subprocess.run(cmd2, cwd=repo, env=env, stdout=subprocess.PIPE, stderr=subprocess.PIPE, text=True)
+            if p2.returncode == 0 and len(p2.stdout) >= 1000:
+                log('[mir] the tree does not compile with feature `verif` (hook code broken by a source change?); dumped without it')
+                p = p2
+        if p.returncode != 0 or len(p.stdout) < 1000:
             with open(os.path.join(build_dir, 'mir.err'), 'w') as f:
                 f.write(p.stderr)
             raise RuntimeError('MIR dump failed (see build/mir.err): ' + p.stderr[-800:])
